@@ -84,7 +84,7 @@ int main() {
         if (nofork) { run_case(cls, P, T, iters, nocopy); fflush(stdout); continue; }
         fflush(stdout);
         pid_t pid = fork();
-        if (pid == 0) { alarm(120); run_case(cls, P, T, iters, nocopy); fflush(stdout); fflush(stderr); _exit(0); }
+        if (pid == 0) { alarm(60); run_case(cls, P, T, iters, nocopy); fflush(stdout); fflush(stderr); _exit(0); }
         int st = 0; waitpid(pid, &st, 0);
         if (WIFSIGNALED(st)) printf("%s %d %d X signal-%d\n", cls.c_str(), P, T, WTERMSIG(st));
         else if (WEXITSTATUS(st) != 0) printf("%s %d %d X exit-%d\n", cls.c_str(), P, T, WEXITSTATUS(st));
